@@ -1,11 +1,59 @@
-(** Property C05 — placeholder while the proofs are being written: model sanity only. *)
+(** Property C05 — RCU disposes every retired object exactly once, no later than the destruction of the singleton.
+    Only statements here; proofs live in LV.Proofs.RcuBuf*.
+
+    Scope: the model LV.Model.RcuBuf of cds::urcu::general_buffered (cds/urcu/details/gpb.h: retire_ptr, batch_retire,
+    push_buffer, synchronize, clear_buffer incl. the re-push of later-epoch entries and its recursion, the overflow
+    path, Destruct) over an abstract bounded FIFO, tied to the code by checks/C05.py; every schedule ([Conc.reach]),
+    any number of threads, any client programs, any buffer capacity (incl. 1: the constructor allocates at least two
+    cells since commit be2e716), counting or non-counting buffer, any spin / recursion fuel.
+    general_instant disposes in the caller (Properties_C04.v: every "dispose p" follows a "retire p" of the same
+    thread and one synchronize).  general_threaded and signal_buffered have no Coq theorem: exploration of the
+    real code with real threads and a per-object dispose counter (checks/C05.py), labelled as such in the evidence.
+
+    [nret p tr] / [ndisp p tr] = number of "retire p" / "dispose p" events in the trace; [cz p l] = occurrences of p
+    in l; a thread emits "done" when it has completed its program; [full_trace n c] = the trace of the run followed
+    by the disposals of Destruct (clear_buffer( max ), in FIFO order).  *)
 From Coq Require Import ZArith List String.
-From LV Require Import Base.Conc Base.Events Model.RcuGp Model.RcuBuf.
+From LV Require Import Base.Conc Base.Events Model.RcuGp Model.RcuBuf Proofs.RcuGpInv Proofs.RcuBufInv Proofs.RcuBufSafe.
 Import ListNotations.
 Local Open Scope string_scope.
 
-Example C05_model_runs :
+(** rcu_dispose_at_most_once: at every instant of every execution an object has been disposed at most as often as
+    it has been retired (at most once for an object retired once). *)
+Theorem C05_rcu_dispose_at_most_once :
+  forall flips sfuel rf cap cnt (ths : list (list RcuBuf.bop)) c,
+    Conc.reach (RcuBuf.binit_cfg flips sfuel rf cap cnt ths) c ->
+    forall p, ndisp p (Conc.trace c) <= nret p (Conc.trace c).
+Proof. exact rcu_dispose_at_most_once_all. Qed.
+Print Assumptions C05_rcu_dispose_at_most_once.
+
+(** rcu_overflow_path_disposes: nothing stays in a thread's hands.  When all threads have completed their
+    programs every retired object has been disposed or sits in the buffer; in particular an entry whose push found
+    the buffer full (or that was popped with a later epoch and could not be pushed back) was disposed by the
+    caller after its own synchronize. *)
+Theorem C05_rcu_overflow_path_disposes :
+  forall flips sfuel rf cap cnt (ths : list (list RcuBuf.bop)) c,
+    Conc.reach (RcuBuf.binit_cfg flips sfuel rf cap cnt ths) c -> all_done (List.length ths) (Conc.trace c) ->
+    forall p, nret p (Conc.trace c) = ndisp p (Conc.trace c) + cz p (map fst (g_buf (Conc.shared c))).
+Proof. exact rcu_quiescent_conservation_all. Qed.
+Print Assumptions C05_rcu_overflow_path_disposes.
+
+(** rcu_destruct_drains: after Destruct every object has been disposed exactly as often as it was retired.
+    (Destruct disposes WITHOUT a grace period: the client must not have a reader inside a section - here all
+    threads have completed.) *)
+Theorem C05_rcu_destruct_drains :
+  forall flips sfuel rf cap cnt (ths : list (list RcuBuf.bop)) c,
+    Conc.reach (RcuBuf.binit_cfg flips sfuel rf cap cnt ths) c -> all_done (List.length ths) (Conc.trace c) ->
+    forall p, ndisp p (full_trace (List.length ths) c) = nret p (full_trace (List.length ths) c).
+Proof. exact rcu_destruct_drains_all. Qed.
+Print Assumptions C05_rcu_destruct_drains.
+
+(** non-vacuity: capacity 1 (two cells), 5 objects retired by one thread (one of them through the overflow path,
+    two by batch_retire), a reader inside a section; all threads complete, every object is disposed exactly once *)
+Example C05_nonvacuous :
   let r := RcuBuf.run_case [2; 3000; 1; 0; 40]%Z [[[1]; [3]; [9]; [4]]; [[1]; [6; 1]; [6; 2]; [6; 3]; [10; 4; 5]; [5]]]%Z
              [0;0;0;0;0;0;0;0;1;1;1;1;1;1;1;1;1;1;1;1;1;1;1;1;1;1;1;0;0;1;1;1;1;1;1;1]%nat 5000 in
-  snd r = true /\ List.length (filter (is_cli "dispose") (map snd (fst r))) = 5%nat.
-Proof. vm_compute. split; reflexivity. Qed.
+  snd r = true /\ List.length (filter (is_cli "done") (map snd (fst r))) = 2%nat /\
+  map (fun p => ndisp p (fst r)) [1; 2; 3; 4; 5]%Z = [1; 1; 1; 1; 1]%nat /\
+  List.length (filter (fun e => match e with EvAcc KCas [8; 0]%Z false => true | _ => false end) (map snd (fst r))) = 1%nat.
+Proof. vm_compute. repeat split; reflexivity. Qed.
